@@ -22,6 +22,7 @@ import (
 	"io"
 	"math"
 	"os"
+	"os/exec"
 	"path/filepath"
 	"regexp"
 	"runtime"
@@ -691,6 +692,7 @@ func topRepoFrame(stack string) string {
 // body runs one execution of sc: under the scheduler when x != nil, free-running otherwise.
 func body(sc Scenario, x *vrt.Exec, res *result) {
 	add := func(sig, msg string) { res.verdicts = append(res.verdicts, verdict{sig, msg}) }
+	g0 := runtime.NumGoroutine()
 	dir := vlib.Scratch("c39-")
 	defer os.RemoveAll(dir)
 	f, err := openFix(dir)
@@ -1009,6 +1011,26 @@ func body(sc Scenario, x *vrt.Exec, res *result) {
 	// the file store's purger (files replaced while a cursor held them) sleeps 1s between sweeps and has no
 	// stop: let fake time pass so that it ends before the bubble does
 	time.Sleep(5 * time.Second)
+	synctest.Wait()
+	orphan := false
+	if runtime.NumGoroutine() > g0 {
+		// A goroutine of the fixture is still alive. The known case: Engine.Close overwrites e.done without
+		// closing it when a finishing delete re-enabled level compactions between Close's
+		// SetCompactionsEnabled(false) and its e.mu.Lock; the new Engine.compact goroutine can then not be
+		// stopped through the engine's API any more (noted in the outcome class). It re-reads e.done on every
+		// tick: give it a done channel again and close that one.
+		eng.SetCompactionsEnabled(true)
+		time.Sleep(3 * time.Second)
+		synctest.Wait() // the orphan has finished its tick and re-read e.done
+		eng.SetCompactionsEnabled(false)
+		time.Sleep(2 * time.Second)
+		synctest.Wait()
+		orphan = runtime.NumGoroutine() <= g0
+	}
+	if os.Getenv("C39_DEBUG") != "" && runtime.NumGoroutine() > g0 {
+		buf := make([]byte, 1<<20)
+		fmt.Fprintf(os.Stderr, "DEBUG LEAK\n%s\n", buf[:runtime.Stack(buf, true)])
+	}
 
 	// ---- oracle: per-point linearizability
 	initPts, cacheRes := layoutPoints(sc.Layout)
@@ -1144,6 +1166,9 @@ func body(sc Scenario, x *vrt.Exec, res *result) {
 	res.outcome = strings.Join(parts, " ") + " => [" + final + "]"
 	if compactorLeft {
 		res.outcome += " +Engine.compact goroutine running after Shard.Close"
+	}
+	if orphan {
+		res.outcome += " +orphaned Engine.compact goroutine after Shard.Close"
 	}
 	if x != nil {
 		x.Outcome = res.outcome
@@ -1336,10 +1361,35 @@ var fatalTotal int
 var freeSeen = map[string]bool{}
 var hangSeen = map[string]string{}
 
-var hung atomic.Bool // an execution of this process hangs: stop exploring (every further one would cost the timeout)
+// hung: a SCHEDULED execution of this process hangs. Its scheduler stays the active one, so no further
+// execution can run in this process. (A free-running execution that hangs only leaves blocked goroutines.)
+var hung atomic.Bool
 
-func hangResult(sc Scenario, prefix []int) (*vrt.Result, *result) {
-	hung.Store(true)
+// subReplay replays one case in a child process (the replay of a hang would otherwise poison the parent).
+func subReplay(raw json.RawMessage) (bool, string) {
+	dir := vlib.Scratch("c39-sub-")
+	defer os.RemoveAll(dir)
+	b, _ := json.Marshal(map[string]any{"case": raw})
+	path := filepath.Join(dir, "case.json")
+	if err := os.WriteFile(path, b, 0o644); err != nil {
+		return false, err.Error()
+	}
+	ctx, cancel := context.WithTimeout(context.Background(), 10*time.Minute)
+	defer cancel()
+	cmd := exec.CommandContext(ctx, os.Args[0], "-test.run", "^TestCheck$", "-test.timeout", "0")
+	cmd.Env = append(os.Environ(), "VERIF_REPLAY="+path, "C39_SUBREPLAY=1", "GOMAXPROCS=1")
+	out, _ := cmd.Output()
+	lines := strings.SplitN(string(out), "\n", 2)
+	if len(lines) < 2 || !strings.HasPrefix(lines[0], "replay property=C39 violated=") {
+		return false, "replay subprocess gave no result: " + strings.TrimSpace(string(out))
+	}
+	return strings.HasSuffix(lines[0], "violated=true"), strings.TrimSpace(lines[1])
+}
+
+func hangResult(sc Scenario, prefix []int, scheduled bool) (*vrt.Result, *result) {
+	if scheduled {
+		hung.Store(true) // the stuck execution keeps its scheduler registered as the active one
+	}
 	if os.Getenv("C39_DUMP") != "" {
 		buf := make([]byte, 4<<20)
 		fmt.Fprintf(os.Stderr, "HANG %s\n%s\n", sc, buf[:runtime.Stack(buf, true)])
@@ -1371,7 +1421,7 @@ func runScheduled(t *testing.T, sc Scenario, wide bool, prefix []int) (*vrt.Resu
 	case r := <-ch:
 		return r, res
 	case <-time.After(hangTimeout):
-		return hangResult(sc, prefix)
+		return hangResult(sc, prefix, true)
 	}
 }
 
@@ -1392,7 +1442,7 @@ func runFree(t *testing.T, sc Scenario) *result {
 	case res := <-ch:
 		return res
 	case <-time.After(freeHangTimeout):
-		_, res := hangResult(sc, nil)
+		_, res := hangResult(sc, nil, false)
 		return res
 	}
 }
@@ -1416,6 +1466,7 @@ type Case struct {
 	Choices  []int    `json:"schedule,omitempty"`
 	Wide     bool     `json:"wide_filter,omitempty"`
 	Free     bool     `json:"free_running,omitempty"`
+	Hang     bool     `json:"hang,omitempty"`
 	Sig      string   `json:"sig,omitempty"`
 	Trace    []string `json:"trace,omitempty"`
 }
@@ -1427,19 +1478,21 @@ type Case struct {
 func attribute(sc Scenario, v verdict, r *vrt.Result) string {
 	sig := v.sig
 	if strings.HasPrefix(sig, "series-missing-from-index/") && r != nil {
-		// the delete dropped the series from the index because it found no data left: was the data in a cache
-		// snapshot taken before the delete looked at the cache (same root cause as the C03 finding, other symptom)?
-		snapAt, delAt := -1, -1
+		// The delete dropped the series from the index because it found no data left although there is some.
+		// Without a concurrent writer that can only be data sitting in a cache snapshot while the delete looks
+		// at the TSM files and the hot cache (same root cause as the C03 finding, other symptom): a cache
+		// snapshot is taken before the delete thread's last step.
+		snapAt, delEnd := -1, -1
 		for k, s := range r.Steps {
 			if snapAt < 0 && strings.Contains(s.Label, "(*Cache).Snapshot:Lock") {
 				snapAt = k
 			}
-			if delAt < 0 && strings.Contains(s.Label, "(*Cache).DeleteRange:Lock") {
-				delAt = k
+			if s.Thread < len(sc.Ops) && strings.HasPrefix(sc.Ops[s.Thread], "delete") {
+				delEnd = k
 			}
 		}
-		if snapAt >= 0 && (delAt < 0 || snapAt < delAt) && !sc.has("write", "write2") {
-			return "series-missing-from-index/series-data-in-cache-snapshot-taken-before-Cache.DeleteRange"
+		if snapAt >= 0 && snapAt < delEnd && !sc.has("write", "write2") {
+			return "series-missing-from-index/series-data-in-cache-snapshot-during-delete"
 		}
 		return sig
 	}
@@ -1624,7 +1677,7 @@ func TestCheck(t *testing.T) {
 					c.HarnessError(sc.String() + ": " + v.msg)
 					return
 				}
-				cs := Case{Scenario: sc, Wide: wide}
+				cs := Case{Scenario: sc, Wide: wide, Hang: strings.HasPrefix(v.sig, "hang/")}
 				if r != nil {
 					cs.Choices = r.Choices
 					cs.Trace = traceOf(r)
@@ -1666,6 +1719,9 @@ func TestCheck(t *testing.T) {
 						c.NontrivialN(1)
 					}
 					if r.Diverged != "" && (!res.fatal || res.diverged) {
+						if os.Getenv("C39_DEBUG") != "" {
+							fmt.Fprintf(os.Stderr, "DEBUG diverged trace:\n%s\n", strings.Join(traceOf(r), "\n"))
+						}
 						c.HarnessError(j.sc.String() + ": " + r.Diverged)
 						return
 					}
@@ -1695,6 +1751,7 @@ func TestCheck(t *testing.T) {
 				}
 			}
 			// free-running smoke pass
+			freeHung := false
 			reps := 1
 			if c.Thorough() {
 				reps = 30
@@ -1714,11 +1771,16 @@ func TestCheck(t *testing.T) {
 						c.Cap("budget expired during the free-running smoke pass")
 						break
 					}
-					if hung.Load() {
+					if hung.Load() || freeHung {
 						c.Cap("the free-running smoke pass of a worker stopped after an execution hung")
 						break
 					}
 					res := runFree(t, j.sc)
+					for _, v := range res.verdicts {
+						if strings.HasPrefix(v.sig, "hang/") {
+							freeHung = true // every further hang would cost the watchdog again
+						}
+					}
 					c.Eval(1)
 					c.Extra("free_running_executions", 1)
 					for _, v := range res.verdicts {
@@ -1745,7 +1807,7 @@ func TestCheck(t *testing.T) {
 					return true, obs
 				}
 				if hung.Load() {
-					return false, "not replayed: an earlier replay hung in this process"
+					return false, "not replayed: an earlier scheduled replay hung in this process"
 				}
 				old := runtime.GOMAXPROCS(4)
 				defer runtime.GOMAXPROCS(old)
@@ -1762,6 +1824,9 @@ func TestCheck(t *testing.T) {
 					}
 				}
 				return false, "not reproduced in 300 free-running repetitions"
+			}
+			if cs.Hang && os.Getenv("C39_SUBREPLAY") == "" {
+				return subReplay(raw)
 			}
 			// an execution that hung leaves its bubble and scheduler behind: nothing else can run in this process
 			ckey := string(raw)
